@@ -2,7 +2,7 @@
 from .. import core, drive, tlc
 from .common import *
 
-JCFG = "CONSTANTS Slots = {1, 2, 3} Items = {1, 2, 3, 100} MaxBins = 12\nINVARIANT ModelConsistent\n"
+JCFG = "CONSTANTS Slots = {1, 2, 3} Items = {1, 2, 3, 100, 101} MaxBins = 12\nINVARIANT ModelConsistent\n"
 
 
 def gen_cfg(slots, items, maxbins, maxops):
@@ -31,7 +31,7 @@ def run(ck):
         hists += [e["ops"] for e in r.emitted]
     ck.exhaustive = True
     ck.cat("exhaustive_histories", len(hists))
-    r = ck.mc("BinnerGen", gen_cfg([1, 2, 3], [1, 2, 3, 100], 4, 12 if q else 20), "GEN simulated deep walks",
+    r = ck.mc("BinnerGen", gen_cfg([1, 2, 3], [1, 2, 3, 100, 101], 4, 12 if q else 20), "GEN simulated deep walks",
               simulate="num=%d" % (40 if q else 600), depth=14 if q else 22, dedupe_emits=True, workers=8)
     deep = [e["ops"] for e in r.emitted]
     ck.cat("simulated_histories_emitted", len(deep))
@@ -53,7 +53,7 @@ def run(ck):
     ck.sample({"mgr": traces[len(traces) // 2]["mgr"], "ops": [{k: o[k] for k in ("op", "a", "b", "i", "j", "n", "it")} for o in traces[len(traces) // 2]["ops"]]})
     ck.sample({"last_event_with_projection": traces[-1]["ops"][-1]})
     ck.rule = ("TLC enumerates every history of <=%d bins-manager operations (new, add, rejected add (an item the value function does not know: no effect allowed), copy, sort, add-empty, remove, concatenate, combine over 2 slots x 2 items x <=2 bins, "
-               "hand-over discipline built in) and simulates deep walks (3 slots, zero-valued item, <=4 bins); each history is replayed on a real BinnerKeepingContents and "
+               "hand-over discipline built in) and simulates deep walks (3 slots, a zero-valued item and one worth 2^24+1, <=4 bins); each history is replayed on a real BinnerKeepingContents and "
                "BinnerKeepingSums, recording the projected state of every live array after every operation and the old handles of handed-over arguments (including the raw length of their list component); TLC steps the "
                "value model through every event. non-trivial = distinct (manager, history) with >=2 operations") % (4 if q else 5)
     fails = ck.judge("JBinner", traces, {"C16"}, what="C16 histories stepped through BinnerVal", chunk=8000, extra_consts=JCFG,
